@@ -18,6 +18,7 @@ def cases(tier, rng):
             # 2-D id array with two columns as trough.wells of a two-column trough
             h = ln // 2
             shapes.append(({"k": "m", "x": [[wid(r, 0), wid(r, 1)] for r in range(h)]}, "ndarray"))
+            shapes.append(({"k": "m", "x": [[wid(r, 0), wid(r, 1)] for r in range(h)]}, "fortran"))
         if tier == "quick":
             ns = sorted(set([0, 1, ln - 1, ln, ln + 1, 2 * ln, 3 * ln, 3 * ln + 1] + [rng.randint(0, nmax) for _ in range(4)]))
         else:
